@@ -3,6 +3,7 @@
 From Coq Require Import String Ascii List NArith ZArith Bool Lia ZifyBool ZifyNat ZifyN.
 From NSQV Require Import model.Judge model.Names model.Num model.Http gen.NsqdRoutes proofs.NumProofs.
 Import ListNotations.
+Close Scope string_scope.
 Open Scope Z_scope.
 
 (* ------------------------------------------------------------------ generated tables *)
@@ -468,3 +469,553 @@ Proof.
       rewrite QD. destruct (http_defer (max_req c) (parse_int ds)); [cbn; split; intro X; discriminate|].
       destruct (env_exiting c); cbn; split; intro X; inversion X; reflexivity.
 Qed.
+
+(* ------------------------------------------------------------------ binary /mpub == MPUB *)
+Lemma read_mpub_nil : forall mm mb, read_mpub mm mb [] = inl E_BAD_BODY.
+Proof. intros. reflexivity. Qed.
+
+Lemma do_mpub_binary_spec : forall c r ps name,
+  r_query r = QOk ps -> qget k_topic ps = Some name -> binary_mode ps = true ->
+  do_mpub c r =
+    if content_length r >? max_body c then herr 413 "BODY_TOO_BIG"
+    else if is_valid_name name then
+      match read_mpub (max_msg c) (max_body c) (firstn (Z.to_nat (max_body c)) (r_body r)) with
+      | inl code => ((413, skipn 2 code), [ECreateTopic name])
+      | inr msgs => if env_exiting c then ((503, str "EXITING"), [ECreateTopic name])
+                    else ((200, str "OK"), [ECreateTopic name; EEnqueue name msgs 0])
+      end
+    else ((400, str "INVALID_TOPIC"), []).
+Proof.
+  intros c r ps name Q T B. unfold do_mpub. rewrite (topic_from_query_ok r ps name Q T).
+  destruct (content_length r >? max_body c); [reflexivity|].
+  destruct (is_valid_name name); [rewrite B|]; reflexivity.
+Qed.
+
+(* binary /mpub with a Content-Length == MPUB whose size field is that length *)
+Theorem mpub_binary_equiv_declared : forall c st r ps name payload effs,
+  tls_gate c = false -> 0 <= max_body c ->
+  r_method r = MPost -> r_path r = str "/mpub" -> r_query r = QOk ps ->
+  qget k_topic ps = Some name -> binary_mode ps = true ->
+  r_body r = payload -> r_framing r = Declared (blen payload) ->
+  (serve c st r = (Resp 200 OKb, effs) <-> tcp_mpub c name (blen payload) payload = TcpOk effs).
+Proof.
+  intros c st r ps name P effs T Hb M Pa Q QT BM RB RF. subst P. set (P := r_body r) in *.
+  rewrite (serve_at c st r (rt_static MPost "/mpub" HMpub) T) by (rewrite M, Pa; exact rr_mpub).
+  unfold run_handler. cbn [rt_handler rt_static].
+  rewrite (do_mpub_binary_spec c r ps name Q QT BM). unfold content_length. rewrite RF. fold P.
+  unfold tcp_mpub.
+  destruct (is_valid_name name); cbn [negb].
+  2:{ destruct (blen P >? max_body c); cbn; split; intro X; discriminate. }
+  destruct (blen P >? max_body c) eqn:Big.
+  - destruct (blen P <=? 0); cbn; split; intro X; discriminate.
+  - destruct (blen P <=? 0) eqn:Z0.
+    + assert (PN : P = []) by (apply blen_zero; pose proof (blen_nonneg P); lia). rewrite PN.
+      rewrite firstn_nil, read_mpub_nil. cbn. split; intro X; discriminate.
+    + rewrite (firstn_blen P (max_body c)) by lia. rewrite firstn_blen_self.
+      destruct (read_mpub (max_msg c) (max_body c) P); [cbn; split; intro X; discriminate|].
+      destruct (env_exiting c); cbn; split; intro X; inversion X; reflexivity.
+Qed.
+
+(* a chunked binary /mpub is read through io.LimitReader(body, max-body-size): it is the
+   MPUB of the first max-body-size bytes *)
+Theorem mpub_binary_equiv_chunked : forall c st r ps name payload effs,
+  tls_gate c = false -> 0 < max_body c ->
+  r_method r = MPost -> r_path r = str "/mpub" -> r_query r = QOk ps ->
+  qget k_topic ps = Some name -> binary_mode ps = true ->
+  r_body r = payload -> r_framing r = Chunked ->
+  (serve c st r = (Resp 200 OKb, effs) <->
+   tcp_mpub c name (Z.min (blen payload) (max_body c)) payload = TcpOk effs).
+Proof.
+  intros c st r ps name P effs T Hb M Pa Q QT BM RB RF. subst P. set (P := r_body r) in *.
+  rewrite (serve_at c st r (rt_static MPost "/mpub" HMpub) T) by (rewrite M, Pa; exact rr_mpub).
+  unfold run_handler. cbn [rt_handler rt_static].
+  rewrite (do_mpub_binary_spec c r ps name Q QT BM). unfold content_length. rewrite RF. fold P.
+  replace (-1 >? max_body c) with false by lia.
+  unfold tcp_mpub.
+  destruct (is_valid_name name); cbn [negb]; [|cbn; split; intro X; discriminate].
+  replace (Z.min (blen P) (max_body c) >? max_body c) with false by lia.
+  destruct (Z.min (blen P) (max_body c) <=? 0) eqn:Z0.
+  - assert (PN : P = []) by (apply blen_zero; pose proof (blen_nonneg P); lia). rewrite PN.
+    rewrite firstn_nil, read_mpub_nil. cbn. split; intro X; discriminate.
+  - assert (E : firstn (Z.to_nat (Z.min (blen P) (max_body c))) P = firstn (Z.to_nat (max_body c)) P).
+    { destruct (Z.le_gt_cases (blen P) (max_body c)).
+      - rewrite Z.min_l by lia. rewrite firstn_blen_self. symmetry. apply firstn_blen. lia.
+      - rewrite Z.min_r by lia. reflexivity. }
+    rewrite E.
+    destruct (read_mpub (max_msg c) (max_body c) (firstn (Z.to_nat (max_body c)) P)); [cbn; split; intro X; discriminate|].
+    destruct (env_exiting c); cbn; split; intro X; inversion X; reflexivity.
+Qed.
+
+(* ... hence, within the body limit, of the honest twin *)
+Corollary mpub_binary_equiv_chunked_within : forall c st r ps name payload effs,
+  tls_gate c = false -> 0 < max_body c -> blen payload <= max_body c ->
+  r_method r = MPost -> r_path r = str "/mpub" -> r_query r = QOk ps ->
+  qget k_topic ps = Some name -> binary_mode ps = true ->
+  r_body r = payload -> r_framing r = Chunked ->
+  (serve c st r = (Resp 200 OKb, effs) <-> tcp_mpub c name (blen payload) payload = TcpOk effs).
+Proof.
+  intros c st r ps name P effs T Hb Hl M Pa Q QT BM RB RF.
+  rewrite (mpub_binary_equiv_chunked c st r ps name P effs T Hb M Pa Q QT BM RB RF).
+  rewrite Z.min_l by lia. reflexivity.
+Qed.
+
+(* what readMPUB returns respects every limit, whatever the count and size fields say *)
+Fixpoint framed_size (msgs : list bytes) : Z :=
+  match msgs with [] => 0 | m :: r => 4 + blen m + framed_size r end.
+
+Lemma blen_skipn : forall n b, 0 <= n <= blen b -> blen (skipn (Z.to_nat n) b) = blen b - n.
+Proof. intros n b H. unfold blen in *. rewrite skipn_length. lia. Qed.
+
+Lemma read_len_some : forall s z rest, read_len s = Some (z, rest) -> 4 <= blen s /\ blen rest = blen s - 4.
+Proof.
+  intros s z rest. unfold read_len. destruct (blen s <? 4) eqn:E; [discriminate|].
+  intro H. inversion H; subst. split; [lia|]. apply (blen_skipn 4 s). lia.
+Qed.
+
+Lemma read_msgs_inv : forall n mm s acc msgs, read_msgs n mm s acc = inr msgs ->
+  exists new, msgs = acc ++ new /\ length new = n /\
+              Forall (fun m => 1 <= blen m <= mm) new /\ framed_size new <= blen s.
+Proof.
+  induction n as [|n IH]; intros mm s acc msgs; simpl.
+  - intro H. inversion H; subst. exists []. rewrite app_nil_r. repeat split; auto. cbn [framed_size]. apply blen_nonneg.
+  - destruct (read_len s) as [[size rest]|] eqn:RL; [|discriminate].
+    destruct (size <=? 0) eqn:A; [discriminate|]. destruct (size >? mm) eqn:B; [discriminate|].
+    destruct (blen rest <? size) eqn:C; [discriminate|].
+    intro H. apply IH in H as (new & E & L & F & S).
+    apply read_len_some in RL as [R1 R2].
+    exists (firstn (Z.to_nat size) rest :: new).
+    assert (BL : blen (firstn (Z.to_nat size) rest) = size) by (rewrite blen_firstn by lia; lia).
+    split; [rewrite E, <- app_assoc; reflexivity|].
+    split; [simpl; lia|]. split.
+    + constructor; [rewrite BL; lia | exact F].
+    + cbn [framed_size]. rewrite BL. rewrite blen_skipn in S by lia. lia.
+Qed.
+
+Theorem read_mpub_within_limits : forall mm mb s msgs, read_mpub mm mb s = inr msgs ->
+  Forall (fun m => 1 <= blen m <= mm) msgs /\
+  1 <= blen_list msgs <= Z.quot (mb - 4) 5 /\
+  4 + framed_size msgs <= blen s.
+Proof.
+  intros mm mb s msgs. unfold read_mpub.
+  destruct (read_len s) as [[count rest]|] eqn:RL; [|discriminate].
+  destruct ((count <=? 0) || (count >? Z.quot (mb - 4) 5)) eqn:A; [discriminate|].
+  intro H. apply read_msgs_inv in H as (new & E & L & F & S). simpl in E. subst new.
+  apply read_len_some in RL as [R1 R2]. apply orb_false_iff in A as [A1 A2].
+  split; [exact F|]. unfold blen_list. split; lia.
+Qed.
+
+(* the body limit holds for every accepted binary /mpub, declared or chunked (F11) *)
+Corollary mpub_binary_body_limit : forall c st r ps name msgs d,
+  tls_gate c = false -> 0 <= max_body c ->
+  r_method r = MPost -> r_path r = str "/mpub" -> r_query r = QOk ps ->
+  qget k_topic ps = Some name -> binary_mode ps = true ->
+  In (EEnqueue name msgs d) (snd (serve c st r)) ->
+  4 + framed_size msgs <= max_body c /\ Forall (fun m => 1 <= blen m <= max_msg c) msgs.
+Proof.
+  intros c st r ps name msgs d T Hb M Pa Q QT BM.
+  rewrite (serve_at c st r (rt_static MPost "/mpub" HMpub) T) by (rewrite M, Pa; exact rr_mpub).
+  unfold run_handler. cbn [rt_handler rt_static].
+  rewrite (do_mpub_binary_spec c r ps name Q QT BM).
+  destruct (content_length r >? max_body c); [cbn [snd fst In herr]; tauto|].
+  destruct (is_valid_name name); [|cbn [snd fst In]; tauto].
+  destruct (read_mpub (max_msg c) (max_body c) (firstn (Z.to_nat (max_body c)) (r_body r))) as [code|ms] eqn:RM.
+  - cbn [snd fst In]. intros [X|[]]. discriminate.
+  - destruct (env_exiting c); cbn [snd fst In].
+    + intros [X|[]]. discriminate.
+    + intros [X|[X|[]]]; [discriminate|]. inversion X; subst.
+      apply read_mpub_within_limits in RM as (F & _ & S).
+      rewrite blen_firstn in S by lia. split; [lia | exact F].
+Qed.
+
+(* ------------------------------------------------------------------ text /mpub *)
+Fixpoint seg_total (segs : list bytes) : Z :=
+  match segs with
+  | [] => 0
+  | [s] => blen s
+  | s :: rest => blen s + 1 + seg_total rest
+  end.
+
+Lemma split_nl_nonnil : forall b, split_nl b <> [].
+Proof.
+  induction b as [|c r IH]; simpl; [discriminate|].
+  destruct (N.eqb c nl); [discriminate|]. destruct (split_nl r); [contradiction|discriminate].
+Qed.
+
+Lemma seg_total_cons : forall s rest, rest <> [] -> seg_total (s :: rest) = blen s + 1 + seg_total rest.
+Proof. intros s [|x rest] H; [contradiction|reflexivity]. Qed.
+
+Lemma blen_cons : forall x b, blen (x :: b) = 1 + blen b.
+Proof. intros. unfold blen. simpl length. lia. Qed.
+
+(* the segments between newlines account for every byte of the body *)
+Lemma split_nl_total : forall b, seg_total (split_nl b) = blen b.
+Proof.
+  induction b as [|c r IH]; [reflexivity|].
+  simpl split_nl. destruct (N.eqb c nl).
+  - rewrite seg_total_cons by apply split_nl_nonnil. rewrite IH, blen_cons. change (blen []) with 0. lia.
+  - pose proof (split_nl_nonnil r) as NN. destruct (split_nl r) as [|f fs]; [contradiction|]. cbv iota beta.
+    rewrite blen_cons. rewrite <- IH.
+    destruct fs as [|g fs'].
+    + cbn [seg_total]. rewrite blen_cons. lia.
+    + change (seg_total ((c :: f) :: g :: fs')) with (blen (c :: f) + 1 + seg_total (g :: fs')). change (seg_total (f :: g :: fs')) with (blen f + 1 + seg_total (g :: fs')). rewrite blen_cons. lia.
+Qed.
+
+Definition seg_ok (mm : Z) (s : bytes) : bool := blen s <=? mm.
+Definition nonempty_b (s : bytes) : bool := negb (is_nil s).
+(* the messages of a text body: its non-empty lines *)
+Definition text_msgs (body : bytes) : list bytes := filter nonempty_b (split_nl body).
+
+Lemma blen_eq0_nil : forall s, (blen s =? 0) = is_nil s.
+Proof. intros [|x s]; [reflexivity|]. rewrite blen_cons. pose proof (blen_nonneg s). cbn [is_nil]. lia. Qed.
+
+Lemma seg_total_nonneg : forall segs, 0 <= seg_total segs.
+Proof.
+  induction segs as [|s rest IH]; [simpl; lia|].
+  destruct rest; [simpl; apply blen_nonneg|]. rewrite seg_total_cons by discriminate.
+  pose proof (blen_nonneg s). lia.
+Qed.
+
+(* below the read limit: the loop keeps exactly the non-empty segments, unless one is too long *)
+Lemma text_loop_below : forall segs mm rm total acc, 0 <= mm -> segs <> [] ->
+  total + seg_total segs < rm ->
+  text_loop mm rm false segs total acc =
+    if forallb (seg_ok mm) segs then TextOk (acc ++ filter nonempty_b segs)
+    else TextErr 413 (str "MSG_TOO_BIG").
+Proof.
+  induction segs as [|s rest IH]; intros mm rm total acc Hm NE Lt; [contradiction|].
+  destruct rest as [|s2 rest'].
+  - cbn [text_loop seg_total] in *. cbn [forallb filter]. unfold seg_ok, nonempty_b.
+    replace (total + blen s =? rm) with false by lia.
+    rewrite blen_eq0_nil. destruct s as [|x s']; cbn [is_nil negb].
+    + replace (blen [] <=? mm) with true by (unfold blen; simpl; lia). rewrite app_nil_r. reflexivity.
+    + destruct (blen (x :: s') >? mm) eqn:B.
+      * replace (blen (x :: s') <=? mm) with false by lia. reflexivity.
+      * replace (blen (x :: s') <=? mm) with true by lia. reflexivity.
+  - rewrite seg_total_cons in Lt by discriminate.
+    pose proof (seg_total_nonneg (s2 :: rest')) as NNs. pose proof (blen_nonneg s) as NNb.
+    change (text_loop mm rm false (s :: s2 :: rest') total acc) with
+      (let total' := total + blen s + 1 in
+       if total' =? rm then TextErr 413 (str "BODY_TOO_BIG")
+       else if blen s =? 0 then text_loop mm rm false (s2 :: rest') total' acc
+       else if blen s >? mm then TextErr 413 (str "MSG_TOO_BIG")
+       else text_loop mm rm false (s2 :: rest') total' (acc ++ [s])).
+    cbv zeta. replace (total + blen s + 1 =? rm) with false by lia.
+    rewrite blen_eq0_nil.
+    change (forallb (seg_ok mm) (s :: s2 :: rest')) with (seg_ok mm s && forallb (seg_ok mm) (s2 :: rest')).
+    change (filter nonempty_b (s :: s2 :: rest')) with
+      (if nonempty_b s then s :: filter nonempty_b (s2 :: rest') else filter nonempty_b (s2 :: rest')).
+    unfold nonempty_b at 1. unfold seg_ok at 1.
+    destruct s as [|x s']; cbn [is_nil negb].
+    + replace (blen [] <=? mm) with true by (unfold blen; simpl; lia). cbn [andb].
+      apply IH; [exact Hm | discriminate | lia].
+    + destruct (blen (x :: s') >? mm) eqn:B.
+      * replace (blen (x :: s') <=? mm) with false by lia. reflexivity.
+      * replace (blen (x :: s') <=? mm) with true by lia. cbn [andb].
+        rewrite IH by (try exact Hm; try discriminate; lia).
+        rewrite <- app_assoc. reflexivity.
+Qed.
+
+(* at the read limit (the body has more than max-body-size bytes): always 413 *)
+Lemma text_loop_at_limit : forall segs mm rm total acc, segs <> [] ->
+  total + seg_total segs = rm ->
+  exists tok, text_loop mm rm false segs total acc = TextErr 413 tok.
+Proof.
+  induction segs as [|s rest IH]; intros mm rm total acc NE Eq; [contradiction|].
+  destruct rest as [|s2 rest'].
+  - cbn [text_loop seg_total] in *. replace (total + blen s =? rm) with true by lia. eexists; reflexivity.
+  - rewrite seg_total_cons in Eq by discriminate.
+    change (text_loop mm rm false (s :: s2 :: rest') total acc) with
+      (let total' := total + blen s + 1 in
+       if total' =? rm then TextErr 413 (str "BODY_TOO_BIG")
+       else if blen s =? 0 then text_loop mm rm false (s2 :: rest') total' acc
+       else if blen s >? mm then TextErr 413 (str "MSG_TOO_BIG")
+       else text_loop mm rm false (s2 :: rest') total' (acc ++ [s])).
+    cbv zeta. destruct (total + blen s + 1 =? rm); [eexists; reflexivity|].
+    destruct (blen s =? 0); [apply IH; [discriminate | lia]|].
+    destruct (blen s >? mm); [eexists; reflexivity|]. apply IH; [discriminate | lia].
+Qed.
+
+(* a body that ends in a read error never yields a batch *)
+Lemma text_loop_read_error : forall segs mm rm total acc, segs <> [] ->
+  exists code tok, text_loop mm rm true segs total acc = TextErr code tok.
+Proof.
+  induction segs as [|s rest IH]; intros mm rm total acc NE; [contradiction|].
+  destruct rest as [|s2 rest'].
+  - cbn [text_loop]. do 2 eexists; reflexivity.
+  - change (text_loop mm rm true (s :: s2 :: rest') total acc) with
+      (let total' := total + blen s + 1 in
+       if total' =? rm then TextErr 413 (str "BODY_TOO_BIG")
+       else if blen s =? 0 then text_loop mm rm true (s2 :: rest') total' acc
+       else if blen s >? mm then TextErr 413 (str "MSG_TOO_BIG")
+       else text_loop mm rm true (s2 :: rest') total' (acc ++ [s])).
+    cbv zeta. destruct (total + blen s + 1 =? rm); [do 2 eexists; reflexivity|].
+    destruct (blen s =? 0); [apply IH; discriminate|].
+    destruct (blen s >? mm); [do 2 eexists; reflexivity|]. apply IH; discriminate.
+Qed.
+
+(* the exact rule of text /mpub for a complete body: the WHOLE body must fit max-body-size,
+   EVERY line must fit max-msg-size (one oversize line refuses the whole request), and
+   the batch is the non-empty lines in order *)
+Theorem text_mpub_spec : forall c r body, 0 <= max_msg c -> 0 <= max_body c ->
+  r_body r = body -> r_body_err r = false ->
+  text_mpub c r =
+    if blen body <=? max_body c then
+      (if forallb (seg_ok (max_msg c)) (split_nl body) then TextOk (text_msgs body)
+       else TextErr 413 (str "MSG_TOO_BIG"))
+    else match text_mpub c r with TextErr 413 tok => TextErr 413 tok | _ => TextOk [] end.
+Proof.
+  intros c r body Hm Hb RB RE. unfold text_mpub at 1. rewrite RB, RE. cbn [andb].
+  destruct (blen body <=? max_body c) eqn:Fit.
+  - rewrite firstn_blen by lia.
+    rewrite text_loop_below; [reflexivity | exact Hm | apply split_nl_nonnil | rewrite split_nl_total; lia].
+  - unfold text_mpub. rewrite RB, RE. cbn [andb].
+    destruct (text_loop_at_limit (split_nl (firstn (Z.to_nat (max_body c + 1)) body)) (max_msg c) (max_body c + 1) 0 [])
+      as [tok E]; [apply split_nl_nonnil | rewrite split_nl_total, blen_firstn by lia; lia|].
+    rewrite E. reflexivity.
+Qed.
+
+Corollary text_mpub_oversize_413 : forall c r body, 0 <= max_msg c -> 0 <= max_body c ->
+  r_body r = body -> r_body_err r = false -> max_body c < blen body ->
+  exists tok, text_mpub c r = TextErr 413 tok.
+Proof.
+  intros c r body Hm Hb RB RE Big. unfold text_mpub. rewrite RB, RE. cbn [andb].
+  apply text_loop_at_limit; [apply split_nl_nonnil | rewrite split_nl_total, blen_firstn by lia; lia].
+Qed.
+
+(* ------------------------------------------------------------------ text /mpub == MPUB of the non-empty lines *)
+(* binary.BigEndian.PutUint32 of a non-negative int32 *)
+Definition enc32 (z : Z) : bytes :=
+  let n := Z.to_N z in
+  [(n / 16777216) mod 256; (n / 65536) mod 256; (n / 256) mod 256; n mod 256]%N.
+(* the MPUB body for a batch: [count][size msg]... *)
+Definition mpub_frame (msgs : list bytes) : bytes :=
+  enc32 (blen_list msgs) ++ flat_map (fun m => enc32 (blen m) ++ m) msgs.
+
+Lemma be32_enc32 : forall z, 0 <= z < two31 -> be32 (enc32 z) = z.
+Proof.
+  intros z H. unfold enc32, be32, two31, two32 in *.
+  set (n := Z.to_N z). assert (Hn : Z.of_N n = z) by (subst n; lia).
+  assert (Hlt : (n < 2147483648)%N) by lia. clearbody n.
+  assert (E : Z.of_N ((n / 16777216) mod 256) * 16777216 + Z.of_N ((n / 65536) mod 256) * 65536 +
+          Z.of_N ((n / 256) mod 256) * 256 + Z.of_N (n mod 256) = Z.of_N n).
+  { pose proof (N.div_mod n 256) as D0. pose proof (N.div_mod (n / 256) 256) as D1.
+    pose proof (N.div_mod (n / 65536) 256) as D2.
+    assert (Q1 : (n / 256 / 256 = n / 65536)%N) by (rewrite N.div_div by lia; reflexivity).
+    assert (Q2 : (n / 65536 / 256 = n / 16777216)%N) by (rewrite N.div_div by lia; reflexivity).
+    assert (S : (n / 16777216 < 256)%N) by (apply N.div_lt_upper_bound; lia).
+    rewrite (N.mod_small (n / 16777216) 256) by exact S.
+    rewrite Q1 in D1. rewrite Q2 in D2. lia. }
+  rewrite E, Hn. replace (z <? 2147483648) with true by lia. reflexivity.
+Qed.
+
+Lemma enc32_len : forall z, blen (enc32 z) = 4.
+Proof. intros. reflexivity. Qed.
+
+Lemma read_len_enc32 : forall z rest, 0 <= z < two31 -> read_len (enc32 z ++ rest) = Some (z, rest).
+Proof.
+  intros z rest H. unfold read_len.
+  assert (L : blen (enc32 z ++ rest) = 4 + blen rest) by (unfold blen; rewrite app_length; simpl length; lia).
+  rewrite L. pose proof (blen_nonneg rest). replace (4 + blen rest <? 4) with false by lia.
+  change (firstn 4 (enc32 z ++ rest)) with (enc32 z). change (skipn 4 (enc32 z ++ rest)) with rest.
+  rewrite be32_enc32 by exact H. reflexivity.
+Qed.
+
+Definition msg_ok (mm : Z) (m : bytes) : bool := (1 <=? blen m) && (blen m <=? mm).
+
+Lemma firstn_app_exact : forall (a b : bytes), firstn (Z.to_nat (blen a)) (a ++ b) = a.
+Proof.
+  intros a b. unfold blen. rewrite Nat2Z.id. rewrite firstn_app, Nat.sub_diag. simpl.
+  rewrite firstn_all, app_nil_r. reflexivity.
+Qed.
+Lemma skipn_app_exact : forall (a b : bytes), skipn (Z.to_nat (blen a)) (a ++ b) = b.
+Proof.
+  intros a b. unfold blen. rewrite Nat2Z.id. rewrite skipn_app, Nat.sub_diag, skipn_all. reflexivity.
+Qed.
+
+(* reading back a framed batch: either every message passes the per-message check and
+   the batch is returned unchanged, or the batch is refused *)
+Lemma read_msgs_frame : forall msgs mm tail acc, mm < two31 ->
+  Forall (fun m => blen m < two31) msgs ->
+  read_msgs (length msgs) mm (flat_map (fun m => enc32 (blen m) ++ m) msgs ++ tail) acc =
+    if forallb (msg_ok mm) msgs then inr (acc ++ msgs) else inl E_BAD_MESSAGE.
+Proof.
+  induction msgs as [|m msgs IH]; intros mm tail acc Hmm Hsz.
+  - simpl. rewrite app_nil_r. reflexivity.
+  - inversion Hsz as [|? ? Hm Hrest]; subst.
+    cbn [length flat_map forallb]. rewrite <- !app_assoc.
+    cbn [read_msgs]. unfold msg_ok at 1.
+    pose proof (blen_nonneg m) as NNm.
+    rewrite read_len_enc32 by lia.
+    destruct (blen m <=? mm) eqn:B.
+    + destruct (1 <=? blen m) eqn:A; cbn [andb].
+      * replace (blen m <=? 0) with false by lia. replace (blen m >? mm) with false by lia.
+        assert (L : blen (m ++ flat_map (fun m0 => enc32 (blen m0) ++ m0) msgs ++ tail) =
+                    blen m + blen (flat_map (fun m0 => enc32 (blen m0) ++ m0) msgs ++ tail))
+          by (unfold blen; rewrite app_length; lia).
+        rewrite L. pose proof (blen_nonneg (flat_map (fun m0 => enc32 (blen m0) ++ m0) msgs ++ tail)).
+        match goal with |- context [?a <? blen m] => replace (a <? blen m) with false by lia end.
+        rewrite firstn_app_exact, skipn_app_exact. rewrite IH by assumption.
+        rewrite <- app_assoc. reflexivity.
+      * replace (blen m <=? 0) with true by lia. reflexivity.
+    + rewrite andb_false_r.
+      destruct (blen m <=? 0); [reflexivity|]. replace (blen m >? mm) with true by lia. reflexivity.
+Qed.
+
+Lemma read_mpub_frame : forall msgs mm mb, mm < two31 -> blen_list msgs < two31 ->
+  Forall (fun m => blen m < two31) msgs ->
+  read_mpub mm mb (mpub_frame msgs) =
+    if (blen_list msgs <=? 0) || (blen_list msgs >? Z.quot (mb - 4) 5) then inl E_BAD_BODY
+    else if forallb (msg_ok mm) msgs then inr msgs else inl E_BAD_MESSAGE.
+Proof.
+  intros msgs mm mb Hmm Hc Hsz. unfold read_mpub, mpub_frame.
+  rewrite read_len_enc32 by (unfold blen_list in *; lia).
+  destruct ((blen_list msgs <=? 0) || (blen_list msgs >? Z.quot (mb - 4) 5)); [reflexivity|].
+  unfold blen_list. rewrite Nat2Z.id.
+  rewrite <- (app_nil_r (flat_map _ msgs)). rewrite read_msgs_frame by assumption. reflexivity.
+Qed.
+
+Lemma seg_le_total : forall segs s, In s segs -> blen s <= seg_total segs.
+Proof.
+  induction segs as [|x rest IH]; intros s H; [contradiction|].
+  destruct rest as [|y rest'].
+  - destruct H as [H|[]]. subst. cbn [seg_total]. lia.
+  - rewrite seg_total_cons by discriminate. pose proof (blen_nonneg x).
+    pose proof (seg_total_nonneg (y :: rest')).
+    destruct H as [H|H]; [subst; lia|]. apply IH in H. lia.
+Qed.
+
+Lemma text_msgs_small : forall body, Forall (fun m => blen m <= blen body) (text_msgs body).
+Proof.
+  intro body. apply Forall_forall. intros m H. unfold text_msgs in H. apply filter_In in H as [H _].
+  apply seg_le_total in H. rewrite split_nl_total in H. exact H.
+Qed.
+
+(* a non-empty line passes the TCP per-message check iff it fits max-msg-size; the empty
+   lines pass the HTTP check trivially and are dropped *)
+Lemma text_checks_agree : forall mm segs, 0 <= mm ->
+  forallb (seg_ok mm) segs = forallb (msg_ok mm) (filter nonempty_b segs).
+Proof.
+  intros mm segs Hm. induction segs as [|s rest IH]; [reflexivity|].
+  cbn [forallb filter]. unfold nonempty_b at 1. destruct s as [|x s']; cbn [is_nil negb].
+  - unfold seg_ok at 1. change (blen []) with 0. replace (0 <=? mm) with true by lia. exact IH.
+  - cbn [forallb]. rewrite IH. unfold seg_ok, msg_ok. rewrite blen_cons. pose proof (blen_nonneg s').
+    replace (1 <=? 1 + blen s') with true by lia. reflexivity.
+Qed.
+
+Lemma do_mpub_text_spec : forall c r ps name,
+  r_query r = QOk ps -> qget k_topic ps = Some name -> binary_mode ps = false ->
+  do_mpub c r =
+    if content_length r >? max_body c then herr 413 "BODY_TOO_BIG"
+    else if is_valid_name name then
+      match text_mpub c r with
+      | TextErr code tok => ((code, tok), [ECreateTopic name])
+      | TextOk msgs => if env_exiting c then ((503, str "EXITING"), [ECreateTopic name])
+                       else ((200, str "OK"), [ECreateTopic name; EEnqueue name msgs 0])
+      end
+    else ((400, str "INVALID_TOPIC"), []).
+Proof.
+  intros c r ps name Q T B. unfold do_mpub. rewrite (topic_from_query_ok r ps name Q T).
+  destruct (content_length r >? max_body c); [reflexivity|].
+  destruct (is_valid_name name); [rewrite B|]; reflexivity.
+Qed.
+
+(* The exact acceptance rule of text /mpub, for a complete request *)
+Theorem mpub_text_accept : forall c st r ps name body effs,
+  tls_gate c = false -> 0 <= max_msg c -> 0 <= max_body c ->
+  r_method r = MPost -> r_path r = str "/mpub" -> r_query r = QOk ps -> complete_body r body ->
+  qget k_topic ps = Some name -> binary_mode ps = false ->
+  (serve c st r = (Resp 200 OKb, effs) <->
+   (is_valid_name name = true /\ env_exiting c = false /\ blen body <= max_body c /\
+    forallb (msg_ok (max_msg c)) (text_msgs body) = true /\
+    effs = [ECreateTopic name; EEnqueue name (text_msgs body) 0])).
+Proof.
+  intros c st r ps name body effs T Hm Hb M Pa Q (RB & RE & RF) QT BM.
+  rewrite (serve_at c st r (rt_static MPost "/mpub" HMpub) T) by (rewrite M, Pa; exact rr_mpub).
+  unfold run_handler. cbn [rt_handler rt_static].
+  rewrite (do_mpub_text_spec c r ps name Q QT BM).
+  unfold text_msgs. rewrite <- (text_checks_agree (max_msg c) (split_nl body) Hm).
+  assert (CL : (content_length r >? max_body c) = true -> (blen body <=? max_body c) = false).
+  { unfold content_length. destruct RF as [RF|RF]; rewrite RF; lia. }
+  destruct (content_length r >? max_body c) eqn:Big.
+  - specialize (CL eq_refl). cbn. split; [intro X; discriminate | intros (_ & _ & X & _); lia].
+  - destruct (is_valid_name name); [|cbn; split; [intro X; discriminate | intros (X & _); discriminate]].
+    destruct (blen body <=? max_body c) eqn:Fit.
+    + rewrite (text_mpub_spec c r body Hm Hb RB RE), Fit.
+      destruct (forallb (seg_ok (max_msg c)) (split_nl body)) eqn:OKs.
+      * destruct (env_exiting c); cbn.
+        -- split; [intro X; discriminate | intros (_ & X & _); discriminate].
+        -- split; [intro X; inversion X; repeat split; lia | intros (_ & _ & _ & _ & X); subst; reflexivity].
+      * cbn. split; [intro X; discriminate | intros (_ & _ & _ & X & _); discriminate].
+    + destruct (text_mpub_oversize_413 c r body Hm Hb RB RE) as [tok E]; [lia|]. rewrite E.
+      cbn. split; [intro X; discriminate | intros (_ & _ & X & _); lia].
+Qed.
+
+(* the TCP framing of the batch is itself within the limits MPUB applies to ITS body:
+   count <= (max-body-size - 4) / 5 and 4 + sum (4 + len) <= max-body-size *)
+Definition tcp_framing_fits (c : cfg) (msgs : list bytes) : Prop :=
+  1 <= blen_list msgs <= Z.quot (max_body c - 4) 5 /\ blen (mpub_frame msgs) <= max_body c.
+
+Lemma mpub_frame_len_ge4 : forall msgs, 4 <= blen (mpub_frame msgs).
+Proof.
+  intro msgs. unfold mpub_frame, blen. rewrite app_length. simpl length. lia.
+Qed.
+
+(* C10_pub_equiv, text clause: where both framings fit, text /mpub is accepted iff the MPUB of
+   its non-empty lines is, with the same effects *)
+Theorem mpub_text_equiv : forall c st r ps name body effs,
+  tls_gate c = false -> 0 <= max_msg c < two31 -> 0 <= max_body c < two31 ->
+  r_method r = MPost -> r_path r = str "/mpub" -> r_query r = QOk ps -> complete_body r body ->
+  qget k_topic ps = Some name -> binary_mode ps = false ->
+  blen body <= max_body c -> tcp_framing_fits c (text_msgs body) ->
+  (serve c st r = (Resp 200 OKb, effs) <->
+   tcp_mpub c name (blen (mpub_frame (text_msgs body))) (mpub_frame (text_msgs body)) = TcpOk effs).
+Proof.
+  intros c st r ps name body effs T Hm Hb M Pa Q CB QT BM Fit ((C1 & C2) & FS).
+  rewrite (mpub_text_accept c st r ps name body effs T) by (try assumption; lia).
+  unfold tcp_mpub. pose proof (mpub_frame_len_ge4 (text_msgs body)) as G4.
+  replace (blen (mpub_frame (text_msgs body)) <=? 0) with false by lia.
+  replace (blen (mpub_frame (text_msgs body)) >? max_body c) with false by lia.
+  rewrite firstn_blen_self.
+  assert (Hc : blen_list (text_msgs body) < two31).
+  { assert (Z.quot (max_body c - 4) 5 <= max_body c) by (apply Z.quot_le_upper_bound; lia). lia. }
+  assert (Hs : Forall (fun m => blen m < two31) (text_msgs body)).
+  { eapply Forall_impl; [|apply text_msgs_small]. cbv beta. intros m X. lia. }
+  rewrite read_mpub_frame by (try assumption; lia).
+  replace ((blen_list (text_msgs body) <=? 0) || (blen_list (text_msgs body) >? Z.quot (max_body c - 4) 5))
+    with false by lia.
+  destruct (is_valid_name name); cbn [negb].
+  2:{ split; [intros (X & _); discriminate | intro X; discriminate]. }
+  destruct (forallb (msg_ok (max_msg c)) (text_msgs body)).
+  - destruct (env_exiting c).
+    + split; [intros (_ & X & _); discriminate | intro X; discriminate].
+    + split; [intros (_ & _ & _ & _ & X); subst; reflexivity | intro X; inversion X; repeat split; assumption].
+  - split; [intros (_ & _ & _ & X & _); discriminate | intro X; discriminate].
+Qed.
+
+(* Where the two differ (documented asymmetries, not defects): HTTP measures the text body
+   (1 byte of framing per line), MPUB measures its binary body (4 bytes per message + 4). *)
+Definition cfg_small : cfg := mkCfg 64 320 3600000000000 false true false true true [].
+Definition text_req (body : bytes) : request :=
+  mkReq MPost (str "/mpub") (QOk [(str "topic", str "t")]) (Declared (blen body)) body false false.
+Definition lines_of (k : nat) : bytes := flat_map (fun _ => [97%N; 10%N]) (seq 0 k).
+
+(* (i) no non-empty line: 200 OK and an empty batch, where MPUB (count 0) is E_BAD_BODY *)
+Lemma text_mpub_gap_empty_batch :
+  serve cfg_small [] (text_req [10%N; 10%N]) = (Resp 200 OKb, [ECreateTopic (str "t"); EEnqueue (str "t") [] 0]) /\
+  tcp_mpub cfg_small (str "t") 4 (mpub_frame []) = TcpErr E_BAD_BODY [ECreateTopic (str "t")].
+Proof. vm_compute. split; reflexivity. Qed.
+
+(* (ii) 100 one-byte lines = 200 bytes of text (accepted), 504 bytes and count 100 > 63 as MPUB (refused) *)
+Lemma text_mpub_gap_count :
+  fst (serve cfg_small [] (text_req (lines_of 100))) = Resp 200 OKb /\
+  tcp_mpub cfg_small (str "t") (blen (mpub_frame (text_msgs (lines_of 100)))) (mpub_frame (text_msgs (lines_of 100)))
+    = TcpErr E_BAD_BODY [ECreateTopic (str "t")].
+Proof. vm_compute. split; reflexivity. Qed.
+
+(* (iii) blank lines count against the text body limit only *)
+Lemma text_mpub_gap_blank_lines :
+  let body := (repeat 10%N 320 ++ [97%N])%list in
+  fst (serve cfg_small [] (text_req body)) = Resp 413 (str "BODY_TOO_BIG") /\
+  tcp_mpub cfg_small (str "t") (blen (mpub_frame (text_msgs body))) (mpub_frame (text_msgs body))
+    = TcpOk [ECreateTopic (str "t"); EEnqueue (str "t") [[97%N]] 0].
+Proof. vm_compute. split; reflexivity. Qed.
